@@ -27,8 +27,9 @@ fn fnv(px: &[u8]) -> u64 {
 #[derive(Clone, Debug, PartialEq)]
 enum Op {
     Wait(usize),
-    /// finish the current frame first if `t` is behind the clock, then move the clock forward to `t`
-    SetClk(usize),
+    /// let time pass (real `wait_internal`) until the frame clock is `t`; if `t` is behind the
+    /// clock the current frame is finished first
+    WaitTo(usize),
     W(u16, u8, usize),
     WBlk(u16, usize, Vec<u8>),
     Z80(u16, u8),
@@ -41,7 +42,7 @@ enum Op {
     Poke(Vec<(u16, u8)>),
     /// run to the end of the frame and compare the delivered canvas
     Frame,
-    /// beam-relative probe: clock to `t`, CPU write (clk 0), two frames, pixel checks
+    /// shorthand: waitto t ; w addr val 0 ; frame ; frame
     Probe(usize, u16, u8),
 }
 
@@ -49,7 +50,7 @@ impl Op {
     fn text(&self) -> String {
         match self {
             Op::Wait(n) => format!("wait {:x}", n),
-            Op::SetClk(t) => format!("setclk {:x}", t),
+            Op::WaitTo(t) => format!("waitto {:x}", t),
             Op::W(a, v, k) => format!("w {:04x} {:02x} {:x}", a, v, k),
             Op::WBlk(a, k, b) => format!("wblk {:04x} {:x} {}", a, k, hex(b)),
             Op::Z80(a, v) => format!("z80 {:04x} {:02x}", a, v),
@@ -81,7 +82,7 @@ impl Op {
         let n = |x: &str| usize::from_str_radix(x, 16).ok();
         Some(match t.as_slice() {
             ["wait", a] => Op::Wait(n(a)?),
-            ["setclk", a] => Op::SetClk(n(a)?),
+            ["waitto", a] => Op::WaitTo(n(a)?),
             ["w", a, v, k] => Op::W(n(a)? as u16, n(v)? as u8, n(k)?),
             ["wblk", a, k, h] => Op::WBlk(n(a)? as u16, n(k)?, unhex(h)),
             ["wblk", a, k] => Op::WBlk(n(a)? as u16, n(k)?, vec![]),
@@ -117,7 +118,7 @@ impl Op {
     fn kind(&self) -> &'static str {
         match self {
             Op::Wait(_) => "wait",
-            Op::SetClk(_) => "setclk",
+            Op::WaitTo(_) => "waitto",
             Op::W(a, _, _) | Op::WBlk(a, _, _) => {
                 if *a >= 0xC000 {
                     "cpu-c000"
@@ -199,6 +200,18 @@ struct Cell {
     seq: u64,
 }
 
+/// one screen byte written while a frame was in progress
+#[derive(Clone, Copy)]
+struct Rec {
+    bank: usize,
+    off: usize,
+    old: u8,
+    /// frame clock before / after the operation that wrote it (the write happened in between)
+    t_lo: usize,
+    t_hi: usize,
+    writer: &'static str,
+}
+
 struct Sim<'a> {
     e: Emu,
     m128: bool,
@@ -213,6 +226,14 @@ struct Sim<'a> {
     cells: Vec<Vec<Cell>>, // [ram bank][offset < 6912]
     fails: Vec<Fail>,
     seq: u64,
+    /// screen bytes written during the frame in progress (for the before/after-the-beam check)
+    recs: Vec<Rec>,
+    touched: std::collections::HashMap<(usize, usize), u32>,
+    /// the displayed bank changed during the frame in progress
+    vis_changed: bool,
+    op_t_lo: usize,
+    frames_advanced: bool,
+    skip_beam: bool,
     spec_every: u64,
     stable_seen: u64,
 }
@@ -260,6 +281,12 @@ impl<'a> Sim<'a> {
             flash_obs: vec![],
             cells: vec![vec![Cell { val: 0, prev: 0, writer: "init", seq: 0 }; SCR_LEN]; banks],
             seq: 0,
+            recs: vec![],
+            touched: Default::default(),
+            vis_changed: false,
+            op_t_lo: 0,
+            frames_advanced: false,
+            skip_beam: false,
             fails: vec![],
             spec_every: 1,
             stable_seen: 0,
@@ -276,6 +303,9 @@ impl<'a> Sim<'a> {
         let fc = self.e.verif_frames_count();
         if fc >= self.last_fc {
             self.frames += (fc - self.last_fc) as u64;
+            if fc > self.last_fc {
+                self.frames_advanced = true;
+            }
         }
         self.last_fc = fc;
     }
@@ -290,6 +320,9 @@ impl<'a> Sim<'a> {
             self.fail(Kind::ModelMismatch, "C08/panic", "the emulator panicked while executing an instruction".into(), "panic".into(), "no panic".into());
         }
         // emulate_frames resets the frame counter on entry
+        if self.e.verif_frames_count() > 0 {
+            self.frames_advanced = true;
+        }
         self.frames += self.e.verif_frames_count() as u64;
         self.last_fc = self.e.verif_frames_count();
     }
@@ -340,6 +373,10 @@ impl<'a> Sim<'a> {
     fn note_write(&mut self, bank: usize, off: usize, v: u8, writer: &'static str) {
         if off < SCR_LEN {
             self.seq += 1;
+            *self.touched.entry((bank, off)).or_default() += 1;
+            if self.recs.len() < 8192 {
+                self.recs.push(Rec { bank, off, old: self.cells[bank][off].val, t_lo: self.op_t_lo, t_hi: usize::MAX, writer });
+            }
             let c = &mut self.cells[bank][off];
             c.prev = c.val;
             c.val = v;
@@ -490,24 +527,125 @@ impl<'a> Sim<'a> {
         self.finish_frame();
         let stable = !self.dirty;
         self.dirty = false;
+        // the byte-level adjudication first: its failures are concrete spec-violating inputs
+        if !stable {
+            self.check_beam(out);
+        }
         self.check_frame(stable, out);
+        self.forget_frame_writes();
     }
 
-    fn spec_px(&mut self, x: usize, y: usize) -> (u8, u8, u8) {
-        let r = self.model.ask(&format!("px {:x} {:x}", x, y));
-        let t: Vec<u8> = r.split(' ').map(|v| u8::from_str_radix(v, 16).unwrap_or(0xEE)).collect();
-        (t[0], t[1], t[2])
-    }
-
-    fn set_clock(&mut self, t: usize) {
-        // the clock hook may only move forward within a frame
+    fn wait_to(&mut self, t: usize) {
+        // time only moves forward: to reach an earlier beam position the frame is finished first
         if t < self.e.verif_frame_clocks() {
             self.finish_frame();
             self.dirty = true; // the frame just delivered is not compared
+            self.forget_frame_writes();
         }
-        let t = t.max(self.e.verif_frame_clocks()).min(clocks_frame(self.m128) - 1);
-        self.e.verif_set_frame_clocks(t);
-        self.model_op(&format!("setclk {:x}", t));
+        let t = t.min(clocks_frame(self.m128) - 1);
+        let n = t - self.e.verif_frame_clocks().min(t);
+        if n > 0 {
+            self.e.verif_wait(n);
+            self.model_op(&format!("wait {:x}", n));
+        }
+    }
+
+    fn forget_frame_writes(&mut self) {
+        self.recs.clear();
+        self.touched.clear();
+        self.vis_changed = false;
+        self.frames_advanced = false;
+        self.skip_beam = false;
+    }
+
+    /// **Before / after the beam**, for every writer: each screen byte written to the displayed
+    /// bank during the frame just delivered (and not overwritten, its partner bytes untouched) must
+    /// show its new value if the write was over >= 8 T before the ULA fetched it, and its old value
+    /// if the write started >= 8 T after; in between either. Adjudicated by `stdDecode` (driver `pxo`).
+    fn check_beam(&mut self, out: &mut Out) {
+        if self.vis_changed || self.skip_beam || self.recs.is_empty() {
+            return;
+        }
+        let vb = self.visible_bank();
+        let first_pixel = if self.m128 { 14362 } else { 14336 };
+        let line = if self.m128 { 228 } else { 224 };
+        let cur = self.e.screen_buffer().px.clone();
+        let cands: Vec<Rec> = self.recs.iter().copied().filter(|r| r.bank == vb && r.t_hi != usize::MAX && self.touched.get(&(r.bank, r.off)) == Some(&1)).collect();
+        if cands.is_empty() {
+            return;
+        }
+        // a sample spread over the candidates
+        let step = (cands.len() / 10).max(1);
+        let mut rows: Vec<(Rec, usize, usize, &'static str)> = vec![]; // (record, col, y, class)
+        for r in cands.iter().step_by(step).take(if cands.len() > 8 { 10 } else { 8 }) {
+            let cells: Vec<(usize, usize, usize)> = if r.off < 0x1800 {
+                let y = ((r.off >> 8) & 7) | ((r.off >> 2) & 0x38) | ((r.off >> 5) & 0xC0);
+                vec![(r.off & 31, y, 0x1800 + (y >> 3) * 32 + (r.off & 31))]
+            } else {
+                let o = r.off - 0x1800;
+                (0..8).map(|i| (o % 32, (o / 32) * 8 + i, bitmap_off((o % 32) * 8, (o / 32) * 8 + i))).collect()
+            };
+            for (col, y, partner) in cells {
+                if self.touched.contains_key(&(vb, partner)) {
+                    continue;
+                }
+                let fetch = first_pixel + y * line + 4 * col;
+                let class = if r.t_hi + 8 <= fetch {
+                    "before"
+                } else if fetch + 8 <= r.t_lo {
+                    "after"
+                } else {
+                    "margin"
+                };
+                rows.push((*r, col, y, class));
+            }
+        }
+        let mut lines = vec![];
+        for (r, col, y, _) in &rows {
+            for i in 0..8 {
+                lines.push(format!("pxo {:x} {:x} {:x} {:02x}", col * 8 + i, y, r.off, r.old));
+            }
+        }
+        let ans = self.model.ask_many(&lines);
+        for (k, (r, col, y, class)) in rows.iter().enumerate() {
+            out.evals += 1;
+            let fetch = first_pixel + y * line + 4 * col;
+            out.classes.push(format!(
+                "beam {} {} {} dt={}",
+                r.writer,
+                if r.off < 0x1800 { "bitmap" } else { "attr" },
+                class,
+                ((if r.t_lo > fetch { r.t_lo as i64 - fetch as i64 } else { r.t_hi as i64 - fetch as i64 }) / 4).clamp(-8, 8)
+            ));
+            out.count("beam_class", format!("{} {}", r.writer, class));
+            for i in 0..8 {
+                let p = y * 256 + col * 8 + i;
+                let t: Vec<u8> = ans[k * 8 + i].split(' ').map(|v| u8::from_str_radix(v, 16).unwrap_or(0xEE)).collect();
+                let shows_new = cur[p] == t[0] || cur[p] == t[1];
+                let shows_old = cur[p] == t[2] || cur[p] == t[3];
+                let bad = match *class {
+                    "before" => !shows_new,
+                    "after" => !shows_old,
+                    _ => !(shows_new || shows_old),
+                };
+                if bad {
+                    let new = self.cells[r.bank][r.off].val;
+                    self.fail(
+                        Kind::SpecViolated,
+                        &format!("C08/beam/{}/writer={}", class, r.writer),
+                        format!(
+                            "screen byte {:04x} of bank {} changed {:02x} -> {:02x} by {} between frame clocks {} and {}; the ULA fetches line {} column {} at {} ({}): pixel ({},{}) of that frame shows {:02x}; decode with the old byte {:02x}, with the new byte {:02x}",
+                            r.off, r.bank, r.old, new, r.writer, r.t_lo, r.t_hi, y, col, fetch,
+                            match *class { "before" => "clearly after the write: the new byte must show", "after" => "clearly before the write: the old byte must show", _ => "within 8 T of the write" },
+                            col * 8 + i, y, cur[p], t[2], t[0]
+                        ),
+                        format!("{:02x}", cur[p]),
+                        if *class == "before" { format!("{:02x}", t[0]) } else { format!("{:02x}", t[2]) },
+                    );
+                    break;
+                }
+            }
+        }
     }
 
     fn load_pages_note(&mut self, pages: &[(u8, Vec<u8>)], writer: &'static str) {
@@ -519,6 +657,27 @@ impl<'a> Sim<'a> {
     }
 
     fn apply(&mut self, op: &Op, out: &mut Out) {
+        self.op_t_lo = self.e.verif_frame_clocks();
+        self.frames_advanced = false;
+        let n0 = self.recs.len();
+        self.apply_inner(op, out);
+        if !matches!(op, Op::Frame | Op::Probe(..)) {
+            if self.frames_advanced {
+                // a frame ended inside the operation: neither that frame nor the one now in progress
+                // (part of the operation's writes fell into it at unknown clocks) is examined byte by byte
+                self.forget_frame_writes();
+                self.skip_beam = true;
+            } else {
+                let t_hi = self.e.verif_frame_clocks();
+                let k = n0.min(self.recs.len());
+                for r in self.recs[k..].iter_mut() {
+                    r.t_hi = t_hi;
+                }
+            }
+        }
+    }
+
+    fn apply_inner(&mut self, op: &Op, out: &mut Out) {
         out.count("ops", op.kind());
         match op {
             Op::Wait(n) => {
@@ -529,7 +688,7 @@ impl<'a> Sim<'a> {
                     self.dirty = true;
                 }
             }
-            Op::SetClk(t) => self.set_clock(*t),
+            Op::WaitTo(t) => self.wait_to(*t),
             Op::W(a, v, k) => {
                 self.e.verif_write_mem(*a, *v, *k);
                 self.note_addr(*a, *v, "cpu");
@@ -562,9 +721,8 @@ impl<'a> Sim<'a> {
                 self.model_op("status");
             }
             Op::Tape(dest, bytes) => {
-                // one TAP block: flag 0xFF, data, parity; LD-BYTES entered at the trap address
-                self.finish_frame();
-                self.dirty = true;
+                // one TAP block: flag 0xFF, data, parity; LD-BYTES entered at the trap address, at
+                // whatever beam position the frame is in
                 let mut blk = vec![0xFFu8];
                 blk.extend_from_slice(bytes);
                 let par = blk.iter().fold(0u8, |a, b| a ^ b);
@@ -597,9 +755,13 @@ impl<'a> Sim<'a> {
                 for (i, v) in bytes.iter().enumerate().take(loaded) {
                     self.note_addr(dest.wrapping_add(i as u16), *v, "tape");
                 }
-                let delta = self.e.verif_frame_clocks() - c0;
+                // the trap instruction (a NOP of the all-zero ROM: 4 T) runs first, then the block is
+                // written without any clock passing, then the return address is popped
+                let f = clocks_frame(self.m128);
+                let delta = (self.e.verif_frame_clocks() + if self.frames_advanced { f } else { 0 }) - c0;
+                let _ = self.model.ask("wait 4");
                 let _ = self.model.ask(&format!("wiblk {:04x} {}", dest, hex(&bytes[..loaded.min(bytes.len())])));
-                self.model_op(&format!("wait {:x}", delta));
+                self.model_op(&format!("wait {:x}", delta.saturating_sub(4)));
             }
             Op::Scr(bytes) => {
                 let ok = self.e.load_screen(Screen::Scr(VAsset::new(bytes.clone()))).is_ok();
@@ -612,6 +774,8 @@ impl<'a> Sim<'a> {
             Op::Sna48(scr) => {
                 self.finish_frame();
                 self.dirty = true;
+                self.forget_frame_writes();
+                self.op_t_lo = self.e.verif_frame_clocks();
                 let mut f = vec![0u8; 27];
                 f[23] = 0x00;
                 f[24] = 0x90; // SP = 0x9000
@@ -633,6 +797,8 @@ impl<'a> Sim<'a> {
             Op::Sna128(latch, b5, b7) => {
                 self.finish_frame();
                 self.dirty = true;
+                self.forget_frame_writes();
+                self.op_t_lo = self.e.verif_frame_clocks();
                 let mut f = vec![0u8; 27];
                 f[24] = 0x90;
                 f[25] = 1;
@@ -676,6 +842,8 @@ impl<'a> Sim<'a> {
             Op::Szx(pages) => {
                 self.finish_frame();
                 self.dirty = true;
+                self.forget_frame_writes();
+                self.op_t_lo = self.e.verif_frame_clocks();
                 let mut f = b"ZXST".to_vec();
                 f.extend_from_slice(&[1, 4, if self.m128 { 2 } else { 1 }, 0]);
                 let mut line = "pages".to_string();
@@ -716,6 +884,9 @@ impl<'a> Sim<'a> {
                 if self.e.verif_paging() != before {
                     self.dirty = true;
                     self.spec_cache = None;
+                    if self.e.verif_paging().2 != before.2 {
+                        self.vis_changed = true;
+                    }
                 }
                 self.model_op(&format!("out {:04x} {:02x}", p, v));
             }
@@ -729,121 +900,11 @@ impl<'a> Sim<'a> {
                 self.model_op("status");
             }
             Op::Frame => self.frame(out),
-            Op::Probe(t, a, v) => self.probe(*t, *a, *v, out),
-        }
-    }
-
-    /// Beam-relative probe. The byte at `a` (visible bank, through the 0x4000 window) is written
-    /// when the frame clock is `t` (plus contention); the 8 pixels of the display byte / the
-    /// first pixel row of the attribute cell at that beam line are then read from the frame in
-    /// progress and from the next one.
-    fn probe(&mut self, t: usize, a: u16, v: u8, out: &mut Out) {
-        let (bank, off) = match self.locate(a) {
-            Some(x) if x.1 < SCR_LEN && x.0 == self.visible_bank() => x,
-            _ => return,
-        };
-        let _ = bank;
-        // start from a frame boundary with a clean frame behind us
-        self.finish_frame();
-        self.dirty = false;
-        self.set_clock(t);
-        // pixels under the byte: display byte -> its 8 pixels; attribute -> 8 pixels of every line of the cell
-        let rows: Vec<(usize, usize)> = if off < 0x1800 {
-            let y = ((off >> 8) & 7) | ((off >> 2) & 0x38) | ((off >> 5) & 0xC0);
-            vec![((off & 31), y)]
-        } else {
-            let o = off - 0x1800;
-            (0..8).map(|i| (o % 32, (o / 32) * 8 + i)).collect()
-        };
-        let mut old = vec![];
-        for (col, y) in &rows {
-            for i in 0..8 {
-                old.push(self.spec_px(col * 8 + i, *y));
-            }
-        }
-        self.e.verif_write_mem(a, v, 0);
-        self.note_addr(a, v, "cpu");
-        self.model_op(&format!("w {:04x} {:02x} 0", a, v));
-        let tw = self.e.verif_frame_clocks();
-        let mut new = vec![];
-        for (col, y) in &rows {
-            for i in 0..8 {
-                new.push(self.spec_px(col * 8 + i, *y));
-            }
-        }
-        let first_pixel = if self.m128 { 14362 } else { 14336 };
-        let line = if self.m128 { 228 } else { 224 };
-        // frame in progress
-        self.finish_frame();
-        self.dirty = false;
-        self.check_model_only(out);
-        let cur = self.e.screen_buffer().px.clone();
-        // next frame: memory unchanged
-        self.finish_frame();
-        self.check_frame(true, out);
-        self.dirty = false;
-        let next = self.e.screen_buffer().px.clone();
-        for (ri, (col, y)) in rows.iter().enumerate() {
-            let fetch = first_pixel + y * line + 4 * col;
-            let class = if tw + 8 <= fetch {
-                "before"
-            } else if fetch + 8 <= tw {
-                "after"
-            } else {
-                "margin"
-            };
-            out.evals += 1;
-            out.classes.push(format!("probe {} {} dt={}", if off < 0x1800 { "bitmap" } else { "attr" }, class, (tw as i64 - fetch as i64).clamp(-24, 24)));
-            out.count("probe_class", class);
-            for i in 0..8 {
-                let p = y * 256 + col * 8 + i;
-                let (_, o0, o1) = old[ri * 8 + i];
-                let (_, n0, n1) = new[ri * 8 + i];
-                let shows_new = cur[p] == n0 || cur[p] == n1;
-                let shows_old = cur[p] == o0 || cur[p] == o1;
-                let bad = match class {
-                    "before" => !shows_new,
-                    "after" => !shows_old,
-                    _ => !(shows_new || shows_old),
-                };
-                if bad {
-                    self.fail(
-                        Kind::SpecViolated,
-                        &format!("C08/beam/{}", class),
-                        format!(
-                            "byte {:04x} <- {:02x} written at frame clock {} ({} T {} the beam reaches line {} column {}): pixel ({},{}) of that frame shows {:02x}; old decode {:02x}, new decode {:02x}",
-                            a, v, tw, (tw as i64 - fetch as i64).abs(), if tw < fetch { "before" } else { "after" }, y, col, col * 8 + i, y, cur[p], o0, n0
-                        ),
-                        format!("{:02x}", cur[p]),
-                        if class == "before" { format!("{:02x}", n0) } else { format!("{:02x}", o0) },
-                    );
-                }
-                if !(next[p] == n0 || next[p] == n1) {
-                    self.fail(
-                        Kind::SpecViolated,
-                        "C08/beam/next-frame",
-                        format!("byte {:04x} <- {:02x} written at frame clock {}: pixel ({},{}) of the NEXT frame shows {:02x}, decode of the new byte is {:02x}", a, v, tw, col * 8 + i, y, next[p], n0),
-                        format!("{:02x}", next[p]),
-                        format!("{:02x}", n0),
-                    );
+            Op::Probe(t, a, v) => {
+                for o in [Op::WaitTo(*t), Op::W(*a, *v, 0), Op::Frame, Op::Frame] {
+                    self.apply(&o, out);
                 }
             }
-        }
-    }
-
-    fn check_model_only(&mut self, out: &mut Out) {
-        out.evals += 1;
-        let real = fnv(&self.e.screen_buffer().px);
-        let r = self.model.ask("frame");
-        let mh = u64::from_str_radix(r.split(' ').next().unwrap_or("0"), 16).unwrap_or(0);
-        if real != mh {
-            self.fail(
-                Kind::ModelMismatch,
-                "C08/model/partial-frame",
-                format!("frame {} (a byte was written while it was drawn): canvas hash {:016x}, model {:016x}", self.frames, real, mh),
-                format!("{:016x}", real),
-                format!("{:016x}", mh),
-            );
         }
     }
 
@@ -869,22 +930,22 @@ impl<'a> Sim<'a> {
     }
 }
 
-/// Runs a case on a fresh emulator and a fresh model. With pokes in the case the repaired model
-/// variant is tried when the real code satisfies the spec (so a repaired tree passes cleanly).
+/// Runs a case on a fresh emulator and a fresh model. The model variant is the repaired poke
+/// (`fixed = true`, what /repo does since b0d1908); when a case with pokes fails, the unrepaired
+/// variant is tried too, so that a tree without the repair is reported as that one defect only.
 fn run_case(model: &mut Model, case: &Case, spec_every: u64, out: &mut Out) -> Vec<Fail> {
     let has_poke = case.ops.iter().any(|o| matches!(o, Op::Poke(_)));
-    let mut fails = run_case_variant(model, case, false, spec_every, out);
-    if has_poke && !fails.is_empty() && !fails.iter().any(|f| f.kind == Kind::SpecViolated) {
-        // the code differs from the model of the unrepaired tree without violating the spec:
-        // accept it if it is the repaired behaviour
+    let fails = run_case_variant(model, case, true, spec_every, out);
+    if has_poke && !fails.is_empty() {
         let mut dummy = Out::default();
-        let fixed = run_case_variant(model, case, true, spec_every, &mut dummy);
-        if fixed.is_empty() {
-            out.count("poke_variant", "repaired (poke refreshes the screen cache)");
-            fails = fixed;
+        let old = run_case_variant(model, case, false, spec_every, &mut dummy);
+        if !old.is_empty() && old.iter().all(|f| f.kind == Kind::SpecViolated && f.key.ends_with("=poke")) {
+            out.count("poke_variant", "unrepaired (poke bypasses the screen cache)");
+            return old;
         }
-    } else if has_poke {
-        out.count("poke_variant", if fails.is_empty() { "no visible effect" } else { "as in the unrepaired tree" });
+    }
+    if has_poke {
+        out.count("poke_variant", "repaired (poke refreshes the screen cache)");
     }
     fails
 }
@@ -1135,8 +1196,15 @@ frame, alternating CPU/Z80 paths) that together cover every one of the 6912 offs
 (2) 48-frame runs without memory change for the flash phase (both machines, both 128K screens); (3) beam-relative \
 probes: one byte written at frame clock fetch(line,col)+d, d in -40..40, pixels read from the frame in progress and \
 the next one; (4) paging-latch histories switching the displayed 128K screen, including the lock bit; (5) pokes \
-(execute_poke) into screen memory. distinct/non-trivial = distinct (path, machine, bank, visible) load classes, flash \
-phases by frame number mod 32, probe (byte kind, before/after/margin, dt) classes, perturbed-offset classes (offset/256)"
+(execute_poke) into screen memory; (6) matrix: every writer {CPU write cycle, real LD (HL),A, execute_poke, tape fast-load, \
+SCR load} through the 0x4000 and the 0xC000 window x every paging state {48K; 128K: bank 0/5/7 at 0xC000 x screen 5/7 x \
+ROM 0/1 x latch open/LOCKED (plus a write the lock must ignore)} x three write times reached by real waiting: well \
+before / well after / within 20 T of the byte's fetch, or anywhere in the frame. Time always passes through \
+wait_internal (never by moving the clock hook), so the emulator has rendered what it should have rendered when a \
+write arrives. Every screen byte written to the displayed bank while a frame is in progress (any writer, any case) is \
+adjudicated in the frame delivered: written >= 8 T before its fetch -> stdDecode with the new byte, >= 8 T after -> with \
+the old byte, else either. distinct/non-trivial = distinct (path, machine, bank, visible) load classes, flash \
+phases by frame number mod 32, beam (writer, byte kind, before/after/margin, dt/4) classes, matrix (writer, window, paging state) classes, perturbed-offset classes (offset/256)"
         .into();
     let mut model = Model::spawn(&o.model, "C08");
 
@@ -1191,7 +1259,7 @@ phases by frame number mod 32, probe (byte kind, before/after/margin, dt) classe
         }
         if path == "scr" || path == "tape" || g.rng.bool() {
             // the beam somewhere inside the frame when the bytes arrive
-            ops.push(Op::SetClk(g.rng.below(69000) as usize));
+            ops.push(Op::WaitTo(g.rng.below(69000) as usize));
         }
         let mut lo = g.load_ops(m128, path, bank, &scr, &other);
         if m128 {
@@ -1402,6 +1470,150 @@ phases by frame number mod 32, probe (byte kind, before/after/margin, dt) classe
         ops.push(Op::Frame);
         ops.push(Op::Frame);
         cases.push((format!("poke m128={} bank={}", m128, bank), Case { m128, ops }, 1));
+    }
+
+    // (6) every writer x every paging state (incl. locked ones) x write time relative to the beam
+    {
+        let mut states: Vec<Option<u8>> = vec![None];
+        for lock in [0u8, 0x20] {
+            for rom in [0u8, 0x10] {
+                for scr in [0u8, 0x08] {
+                    for top in [0u8, 5, 7] {
+                        states.push(Some(lock | rom | scr | top));
+                    }
+                }
+            }
+        }
+        let writers: [(&str, u16); 9] = [
+            ("cpu", 0x4000), ("cpu", 0xC000), ("z80", 0x4000), ("z80", 0xC000), ("poke", 0x4000), ("poke", 0xC000),
+            ("tape", 0x4000), ("tape", 0xC000), ("scr", 0x4000),
+        ];
+        let reps = o.n(1, 12);
+        let rounds = o.n(3, 5) as usize;
+        for _ in 0..reps {
+            for st in &states {
+                for (w, win) in writers {
+                    let m128 = st.is_some();
+                    let latch = st.unwrap_or(0);
+                    // the fast-load trap needs the 48K BASIC ROM at 0x0000
+                    if w == "tape" && m128 && latch & 0x10 == 0 {
+                        continue;
+                    }
+                    let mut ops = vec![];
+                    // background: distinct visible content in every screen bank, loaded before locking
+                    let mut mem: Vec<Vec<u8>> = vec![vec![]; 8];
+                    if m128 {
+                        for b in [5u8, 7] {
+                            let bg = random_screen(&mut g.rng);
+                            ops.push(Op::Out(0x7FFD, b));
+                            ops.push(Op::WBlk(0xC000, 0, bg.clone()));
+                            mem[b as usize] = bg;
+                        }
+                        ops.push(Op::Out(0x7FFD, latch));
+                        if latch & 0x20 != 0 {
+                            // must be ignored: the latch is locked
+                            ops.push(Op::Out(0x7FFD, (latch ^ 0x0F) & 0x1F));
+                        }
+                    } else {
+                        let bg = random_screen(&mut g.rng);
+                        ops.push(Op::WBlk(0x4000, 0, bg.clone()));
+                        mem[0] = bg;
+                    }
+                    ops.push(Op::Frame);
+                    // RAM bank behind the window
+                    let bank: Option<usize> = match (m128, win) {
+                        (false, 0x4000) => Some(0),
+                        (false, _) => None,
+                        (true, 0x4000) => Some(5),
+                        (true, _) => Some((latch & 7) as usize),
+                    };
+                    let lm = if m128 { 228 } else { 224 };
+                    let fp = if m128 { 14362 } else { 14336 };
+                    for round in 0..rounds {
+                        let off = if g.rng.chance(2, 3) { g.rng.below(0x1800) as usize } else { 0x1800 + g.rng.below(768) as usize };
+                        let (y, col) = if off < 0x1800 {
+                            (((off >> 8) & 7) | ((off >> 2) & 0x38) | ((off >> 5) & 0xC0), off & 31)
+                        } else {
+                            (((off - 0x1800) / 32) * 8 + g.rng.below(8) as usize, (off - 0x1800) % 32)
+                        };
+                        let fetch = fp + y * lm + 4 * col;
+                        let d: i64 = match (round + g.rng.below(2) as usize) % 4 {
+                            0 => -(g.rng.range(40, 600) as i64),
+                            1 => g.rng.range(16, 600) as i64,
+                            2 => g.rng.range(0, 40) as i64 - 20,
+                            _ => g.rng.range(0, 60000) as i64 - fetch as i64,
+                        };
+                        ops.push(Op::WaitTo((fetch as i64 + d).clamp(0, 69000) as usize));
+                        let cur = |mem: &Vec<Vec<u8>>, o: usize| bank.and_then(|b| mem[b].get(o).copied()).unwrap_or(0);
+                        let mut fresh = |g: &mut Gen, mem: &mut Vec<Vec<u8>>, o: usize| {
+                            let mut v = visible_byte(&mut g.rng, o);
+                            if v == cur(mem, o) {
+                                v ^= 0x55;
+                            }
+                            if let Some(b) = bank {
+                                if o < mem[b].len() {
+                                    mem[b][o] = v;
+                                }
+                            }
+                            v
+                        };
+                        match w {
+                            "cpu" => {
+                                let v = fresh(&mut g, &mut mem, off);
+                                ops.push(Op::W(win + off as u16, v, g.rng.below(5) as usize));
+                            }
+                            "z80" => {
+                                let v = fresh(&mut g, &mut mem, off);
+                                ops.push(Op::Z80(win + off as u16, v));
+                            }
+                            "poke" => {
+                                let mut ps = vec![];
+                                let v = fresh(&mut g, &mut mem, off);
+                                ps.push((win + off as u16, v));
+                                for _ in 0..g.rng.below(3) {
+                                    let o2 = g.rng.below(SCR_LEN as u64) as usize;
+                                    if o2 != off {
+                                        let v2 = fresh(&mut g, &mut mem, o2);
+                                        ps.push((win + o2 as u16, v2));
+                                    }
+                                }
+                                ops.push(Op::Poke(ps));
+                            }
+                            "tape" => {
+                                let n = (g.rng.range(1, 96) as usize).min(SCR_LEN - off);
+                                let bytes: Vec<u8> = (0..n).map(|i| fresh(&mut g, &mut mem, off + i)).collect();
+                                ops.push(Op::Tape(win + off as u16, bytes));
+                            }
+                            _ => {
+                                let scr = random_screen(&mut g.rng);
+                                if m128 {
+                                    mem[5] = scr.clone();
+                                } else {
+                                    mem[0] = scr.clone();
+                                }
+                                ops.push(Op::Scr(scr));
+                            }
+                        }
+                        ops.push(Op::Frame);
+                        ops.push(Op::Frame);
+                    }
+                    if m128 && latch & 0x20 == 0 {
+                        // look at the other screen too
+                        ops.push(Op::Out(0x7FFD, latch ^ 0x08));
+                        ops.push(Op::Frame);
+                        ops.push(Op::Frame);
+                    }
+                    let label = match st {
+                        None => format!("matrix writer={} window={:04x} 48K", w, win),
+                        Some(l) => format!(
+                            "matrix writer={} window={:04x} top={} shown={} rom={} lock={}",
+                            w, win, l & 7, if l & 8 != 0 { 7 } else { 5 }, (l >> 4) & 1, (l >> 5) & 1
+                        ),
+                    };
+                    cases.push((label, Case { m128, ops }, 2));
+                }
+            }
+        }
     }
 
     // ---- run them on worker threads, each with its own driver process and emulators
